@@ -254,15 +254,23 @@ class Bristol_871A(QMI_Instrument):
         _logger.info("Opening connection to instrument")
         if self._scpi_transport is not None:
             self._scpi_transport.open()
-        if self._serial_transport is not None:
-            self._serial_transport.open()
-        super().open()
-        if self._scpi_transport is not None:
+        try:
+            if self._serial_transport is not None:
+                self._serial_transport.open()
             try:
-                self._scpi_handshake()
+                if self._scpi_transport is not None:
+                    self._scpi_handshake()
             except Exception:
-                self._scpi_transport.close()
+                # Release the serial channel if the SCPI handshake failed.
+                if self._serial_transport is not None:
+                    self._serial_transport.close()
                 raise
+        except Exception:
+            # Release the SCPI channel if the instrument could not be opened completely.
+            if self._scpi_transport is not None:
+                self._scpi_transport.close()
+            raise
+        super().open()
 
     @rpc_method
     def close(self) -> None:
